@@ -26,5 +26,18 @@ Fixpoint for_each {E S X} (l : list X) (body : X -> M E S unit) : M E S unit :=
   | x :: t => bind (body x) (fun _ => for_each t body)
   end.
 
+(* for x in l: body x   where the body may `return v` (Some v) or fall through (None) *)
+Fixpoint for_first {E S X T} (l : list X) (body : X -> M E S (option T)) : M E S (option T) :=
+  match l with
+  | [] => ret None
+  | x :: t => bind (body x) (fun r => match r with Some v => ret (Some v) | None => for_first t body end)
+  end.
+
+Fixpoint zip3 {A B C} (a : list A) (b : list B) (c : list C) : list (A * B * C) :=
+  match a, b, c with
+  | x :: a', y :: b', z :: c' => (x, y, z) :: zip3 a' b' c'
+  | _, _, _ => []
+  end.
+
 Notation "x <- m ;; k" := (bind m (fun x => k)) (at level 61, m at next level, right associativity).
 Notation "' p <- m ;; k" := (bind m (fun p => k)) (at level 61, p pattern, m at next level, right associativity).
